@@ -4,6 +4,7 @@ import (
 	"math"
 
 	"google.golang.org/protobuf/reflect/protoreflect"
+	"google.golang.org/protobuf/types/dynamicpb"
 	"pgregory.net/rapid"
 
 	"verif/harness/internal/refwire"
@@ -133,6 +134,25 @@ func encodeVariant(t *rapid.T, m protoreflect.Message, o varOpts, st *varStats, 
 	var pieces [][]byte
 	m.Range(func(fd protoreflect.FieldDescriptor, v protoreflect.Value) bool {
 		num := int(fd.Number())
+		if od := fd.ContainingOneof(); od != nil && !od.IsSynthetic() && o.dups && od.Fields().Len() > 1 && rapid.IntRange(0, 2).Draw(t, "oneofdup") == 0 {
+			// ANOTHER member of the same oneof also occurs on the wire: whichever comes last wins and clears the other
+			var others []protoreflect.FieldDescriptor
+			for i := 0; i < od.Fields().Len(); i++ {
+				if of := od.Fields().Get(i); of.Number() != fd.Number() {
+					others = append(others, of)
+				}
+			}
+			of := rapid.SampledFrom(others).Draw(t, "oneofother")
+			if of.Message() != nil {
+				child := dynamicpb.NewMessage(of.Message()) // empty apart from its required fields
+				fillRequired(child, 2)
+				cb, _ := refMarshal.Marshal(child)
+				pieces = append(pieces, refwire.AppendLen(refwire.AppendKey(nil, int(of.Number()), 2), cb))
+			} else {
+				pieces = append(pieces, fieldOcc(int(of.Number()), of.Kind(), genScalar(t, of)))
+			}
+			st.oneofDup++
+		}
 		switch {
 		case fd.IsMap():
 			kfd, vfd := fd.MapKey(), fd.MapValue()
